@@ -293,3 +293,16 @@ _ROUND10 = {
 }
 for _k, _v in _ROUND10.items():
     META[_k]["text"] += " " + _v
+
+# dimensions added after the eleventh round (ten properties)
+_ROUND11 = {
+    "C06": "A rapid layer lists through the trait servers' List RPCs (modes, hails, publications) with read masks and re-reads the stored items.",
+    "C12": "The default-name stream interceptor is also driven with several request messages per stream.",
+    "C13": "Scripted handlers go on using the metadata values they have set or sent.",
+    "C14": "Infinite fan-speed percentages of both signs; models on a clock standing at the zero time.",
+    "C16": "NaNs of several bit patterns; value equivalence under caller-chosen write times.",
+    "C18": "Magnitudes down to 1/32768 A.",
+    "C20": "Relative mode steps at the int32 limits; a large stock nearly emptied in one dispense.",
+}
+for _k, _v in _ROUND11.items():
+    META[_k]["text"] += " " + _v
